@@ -29,7 +29,7 @@ def r1(ctx):
     ST = "barter_data::transformer::stateless::StatelessTransformer"
     b = ctx.fbody(name="transform", self_adt=ST, trait="barter_integration::Transformer")
     tab = {}
-    for g, term, bi in b.local_cases(0):
+    for g, term, bi in b.expanded_cases(0):
         for conj in g:
             key = []
             for a in sorted(conj, key=repr):
